@@ -134,6 +134,14 @@ class SpecEnv:
     def cls_term(self, c: ClsLike):
         return c.t if c.t is not None else self.interp.reg.cls(c.py)
 
+    def to_key(self, x):
+        """dict keys: tuples by value (see Interp.key_term)"""
+        if isinstance(x, V) and x.kind == "tuple":
+            return self.interp.key_term(self.st, x)
+        if isinstance(x, (tuple, list)):
+            return self.interp.key_term(self.st, V("tuple", [self.eval_to_V(i) for i in x]))
+        return self.to_val(x)
+
     def to_val(self, x):
         if isinstance(x, V):
             return self.interp.term(self.st, x)
@@ -273,7 +281,7 @@ class SpecEnv:
                 if isinstance(h, HDict):
                     if h.pairs is not None:
                         raise SpecError("spec indexes a concrete dict; use the executor's view")
-                    return V("sym", t=z3.Select(h.vals, self.to_val(idx)))
+                    return V("sym", t=z3.Select(h.vals, self.to_key(idx)))
             if base.kind == "tuple" and isinstance(idx, int):
                 if not (-len(base.d) <= idx < len(base.d)):
                     return V("sym", t=self.interp.ctx.fresh_val("undef_index"))
@@ -568,8 +576,25 @@ def has_key(env, d, k):
             if h.pairs is not None:
                 from .builtins_theory import to_symbolic_dict
                 to_symbolic_dict(env.interp, st, h)
-            return z3.Select(h.has, env.to_val(k))
+            return z3.Select(h.has, env.to_key(k))
     raise SpecError("has_key needs a dict built by the unit")
+
+
+@ghost()
+def dict_same(env, a, b):
+    """two dicts (usually: now and `old(...)`) have the same keys in the same order with the same values"""
+    st = env.st
+    hs = []
+    for d in (a, b):
+        if not (isinstance(d, V) and d.kind == "ref" and isinstance(st.heap[d.d], HDict)):
+            raise SpecError("dict_same needs dicts")
+        h = st.heap[d.d]
+        if h.pairs is not None:
+            from .builtins_theory import to_symbolic_dict
+            to_symbolic_dict(env.interp, st, h)
+        hs.append(h)
+    x, y = hs
+    return z3.And(x.kn == y.kn, x.has == y.has, x.vals == y.vals, x.karr == y.karr)
 
 
 @ghost(raw=True)
